@@ -93,6 +93,13 @@ def cpp_program(draw, tier: str, n_structs: Tuple[int, int] = (8, 14), can: bool
         sub = draw(st.lists(st.sampled_from(structs), min_size=1, max_size=min(4, len(structs)), unique=True))
         for k, nm in enumerate(draw(st.permutations(sub))):
             s.decls.append(M.Impl("uart", nm, None, [("id", k)]))
+        if draw(st.booleans()):
+            # ... or anywhere in the file, also before the struct they bind (a binding names its struct, the
+            # front end does not require the struct to be declared first)
+            early = [d for d in s.decls if isinstance(d, M.Impl)]
+            for im in early:
+                s.decls.remove(im)
+                s.decls.insert(draw(st.integers(0, len(s.decls))), im)
     if can:
         ids = draw(st.lists(st.integers(0, 2047), min_size=len(structs), max_size=len(structs), unique=True))
         for st_, fid in zip(s.structs, ids):
